@@ -13,6 +13,7 @@ var verifC13Names = [...]string{"len", "int", "string", "typeName"}
 type verifC13Prog struct {
 	src   string
 	mod   string   // source of module "m" (if imported)
+	mod2  string   // source of module "m2" (if imported, by the script or by m)
 	frag2 string   // second Eval fragment (if any)
 	uses  []string // builtin names referenced without an own declaration
 }
@@ -30,6 +31,16 @@ var verifC13Progs = [...]verifC13Prog{
 	{src: `f := func(...string) { return string }; m := {k: len}; return [f(1), m.k("abc")]`, uses: []string{"len"}},
 	{src: `x := 2`, frag2: `const k = 1; g := func() { return int("4") * k + x }; return g()`, uses: []string{"int"}},
 	{src: `try { throw "e" } catch len { return string(len) }; return int("1")`, uses: []string{"string", "int"}},
+	// 12-19: the import stands in a scope other than the script's top level,
+	// modules import modules, a module is imported from two different scopes
+	{src: `f := func() { return import("m") }; return f()`, mod: `return string(1) + typeName(2)`, uses: []string{"string", "typeName"}},
+	{src: `if true { x := import("m"); return x }; return 0`, mod: `return len("abc")`, uses: []string{"len"}},
+	{src: `for i := 0; i < 1; i++ { return import("m") }; return 0`, mod: `f := func() { return int("5") }; return f()`, uses: []string{"int"}},
+	{src: `try { return import("m") } finally { }`, mod: `const c = 1; return -len("ab") + c`, uses: []string{"len"}},
+	{src: `return import("m")`, mod: `x := import("m2"); return x`, mod2: `f := func() { return typeName(1) }; return f()`, uses: []string{"typeName"}},
+	{src: `g := func() { if true { return func() { return import("m") } }; return 0 }; return g()()`, mod: `return func() { return string(2) }()`, uses: []string{"string"}},
+	{src: `a := func() { return import("m") }; b := import("m2"); return [a(), b, import("m")]`, mod: `return len("q")`, mod2: `return int("2")`, uses: []string{"len", "int"}},
+	{src: `f := func() { return import("m") }; return f()`, mod: `g := func() { return import("m2") }; return g()`, mod2: `return string(len("ab"))`, uses: []string{"string", "len"}},
 }
 
 // verifFindBuiltinRefs scans every compiled function for OpGetBuiltin operands.
@@ -106,6 +117,9 @@ func VerifC13Disabled() {
 	mm := NewModuleMap()
 	if pr.mod != "" {
 		mm.AddSourceModule("m", []byte(pr.mod))
+	}
+	if pr.mod2 != "" {
+		mm.AddSourceModule("m2", []byte(pr.mod2))
 	}
 	opts := CompilerOptions{ModuleMap: mm, SymbolTable: st, NoOptimize: verifrt.Param("opt") == 0}
 	var failed bool
